@@ -240,9 +240,11 @@ def run_second(sc, path, spec2, PX='req2'):
     """run a follow-up request of spec2 from the post-state of `path`; yields (follow-scenario, req2, path2)"""
     n0 = len(sc.assume)
     req2 = make_request(sc, spec2, PX)
+    funds0 = sc.funds
     info = sc.info(spec2['nfunds'], prefix=PX)
     extra = sc.assume[n0:]
     fol = Follow(sc, path)
     fol.funds = list(sc.funds)
+    sc.funds = funds0                      # the first request's attached funds stay the scenario's
     for fin in sc.run_entry('execute', [sc.deps(), sc.env(), info, req2['msg']], world=path.world, pc=list(path.pc) + extra):
         yield fol, req2, W.Path(fin)
